@@ -124,3 +124,5 @@ m("C13", ["R26"], B, "                while n_pos > 0 {\n                    if 
 m("C13", ["R26"], B, "                while n_pos > 0 {\n                    if (n_pos & 1) != 0 {\n                        result *= &value;\n                    }\n                    value *= value;\n                    n_pos >>= 1;\n                }", "                loop {\n                    if (n_pos & 1) != 0 {\n                        result *= &value;\n                    }\n                    n_pos >>= 1;\n                    value *= value;\n                    if n_pos == 0 {\n                        break;\n                    }\n                    result *= &value;\n                }", "powi loop with an early break and one multiplication too many per pass")
 m("C14", ["R33", "R36"], EX, "            let z = self - y / 2.0;", "            let z = self - y * 0.25;", "exp reduction subtracts y/4 (multiplication by a different power of two)")
 m("C14", ["R36"], EX, "assert!(n.abs() <= 32);", "assert!(n.abs() <= 31);", "table assertion tighter than the reduction guarantees (code panics are left to the totality rule by the form rule)")
+m("C07", ["RD"], B, "            let offset = if (bits & MANTISSA_MASK) == 0", "            debug_assert!((1..=2045).contains(&biased_exponent));\n            let offset = if (bits & MANTISSA_MASK) == 0", "a debug assertion on the exponent field that the largest normal numbers violate (the category fact gives 1..=2046, not less)")
+m("C09", ["R24", "RD"], CV, "                Ok(truncated.hi() as $type)", "                debug_assert!(LOWER_BOUND < truncated.hi());\n                Ok(truncated.hi() as $type)", "a debug assertion with a strict bound that T::MIN violates (the range fact is inclusive)")
